@@ -324,6 +324,7 @@ func Main(chk *Check, tier string, seed int64, replayPath string) int {
 		subByName[s.Name] = s
 	}
 	var knownLines, violLines []string
+	reruns := map[string][]map[string]*classAgg{}
 	for _, k := range keys {
 		agg := classes[k]
 		sub := subByName[agg.Sub]
@@ -335,9 +336,18 @@ func Main(chk *Check, tier string, seed int64, replayPath string) int {
 			// failure needs the history of calls that preceded it. Decide by re-running the
 			// whole sub-check twice: the class must come back every time.
 			recurs := 0
-			for i := 0; i < 2; i++ {
-				_, _, cls, err := runSub(sub, tier, deadline)
-				if err != nil {
+			if _, done := reruns[sub.Name]; !done {
+				// two re-runs per sub-check, shared by all its non-replayable classes
+				for i := 0; i < 2; i++ {
+					_, _, cls, err := runSub(sub, tier, time.Now().Add(deadlineFor(tier)))
+					if err != nil {
+						cls = nil
+					}
+					reruns[sub.Name] = append(reruns[sub.Name], cls)
+				}
+			}
+			for _, cls := range reruns[sub.Name] {
+				if cls == nil {
 					continue
 				}
 				// the same class, or - hidden state such as a recycled buffer can surface in a
